@@ -169,10 +169,10 @@ func judge(b *base, pl *plan, sc *tcpx.Scenario, res *tcpx.Result) {
 }
 
 // halfOpen classifies a run in which the active side's Connect succeeded but the passive
-// side never handed a connection to Accept. judged=false: every segment the active side
-// emitted during the handshake was dropped by the fault plan and there were more than two
-// of them - outside the property's fault bound (the passive side exhausted its SYN-ACK
-// retransmissions; nothing reached it).
+// side never handed a connection to Accept. judged=false: no segment of the active side
+// reached the passive side although every delivered SYN-ACK was answered, and the fault
+// plan dropped more than two handshake packets (answers and SYN-ACK retransmissions) -
+// outside the property's fault bound; the passive side exhausted its retransmissions.
 func halfOpen(res *tcpx.Result) (key, why string, judged bool) {
 	h := res.Hs
 	switch {
@@ -180,10 +180,10 @@ func halfOpen(res *tcpx.Result) (key, why string, judged bool) {
 		return "C02/stall/handshake/retransmitted-synack-unanswered", fmt.Sprintf("the active side is established, the passive side retransmitted its SYN-ACK (%d emitted, %d delivered) and the last one delivered drew no segment from the active side (%d emitted in all): the lost handshake ACK is never repeated", h.SynAckEmitted, h.SynAckDelivered, h.ClientEmitted), true
 	case h.ClientDelivered > 0:
 		return "C02/stall/handshake/ack-delivered-never-accepted", fmt.Sprintf("%d segments of the established active side reached the passive side (%d SYN-ACKs emitted), yet no connection was ever handed to Accept and nothing failed", h.ClientDelivered, h.SynAckEmitted), true
-	case h.ClientDropped <= 2:
-		return "C02/stall/handshake/not-recovered", fmt.Sprintf("only %d handshake segments of the active side were lost (SYN-ACKs: %d emitted, %d delivered) and the passive side gave up or went quiet without the connection failing on the active side", h.ClientDropped, h.SynAckEmitted, h.SynAckDelivered), true
+	case h.ClientDropped+h.SynAckDropped <= 2:
+		return "C02/stall/handshake/not-recovered", fmt.Sprintf("only %d handshake segments of the active side and %d SYN-ACKs were lost (SYN-ACKs: %d emitted, %d delivered) and the passive side gave up or went quiet without the connection failing on the active side", h.ClientDropped, h.SynAckDropped, h.SynAckEmitted, h.SynAckDelivered), true
 	}
-	return "", fmt.Sprintf("all %d handshake segments of the active side were dropped by the fault plan", h.ClientDropped), false
+	return "", fmt.Sprintf("%d handshake segments of the active side (all it emitted) and %d of %d SYN-ACKs were dropped by the fault plan", h.ClientDropped, h.SynAckDropped, h.SynAckEmitted), false
 }
 
 func stallKey(sc *tcpx.Scenario, res *tcpx.Result) (string, string) {
